@@ -51,17 +51,17 @@ template<int C1, int R1, int C2, class T> void mm_all() {
     for (int s = 0; s < (g_thorough ? 200 : 12); ++s) mm_one<C1, R1, C2, T>(randomm<C1, R1, T>(), randomm<C2, C1, T>());
 }
 template<int C, int R, class T> void mv_all() {
-    auto mv = [](M<C, R, T> const& m, V<C, T> const& v) { V<R, T> r = m * v; EVM("mv", T).num("c", C).num("r", R).arg(m).arg(v).res(r).emit(); };
+    auto mv = [](M<C, R, T> const& m, V<C, T> const& v) { V<R, T> r = m * v; EVM("mv", T).num("C", C).num("R", R).arg(m).arg(v).res(r).emit(); };
     // vec * mat is implemented with dot(), which GLM restricts to floating-point types: for integer matrices the operator does not compile (census)
-    auto vm = [](V<R, T> const& v, M<C, R, T> const& m) { if constexpr (std::is_floating_point<T>::value) { V<C, T> r = v * m; EVM("vm", T).num("c", C).num("r", R).arg(v).arg(m).res(r).emit(); } };
+    auto vm = [](V<R, T> const& v, M<C, R, T> const& m) { if constexpr (std::is_floating_point<T>::value) { V<C, T> r = v * m; EVM("vm", T).num("C", C).num("R", R).arg(v).arg(m).res(r).emit(); } };
     for (int i = 0; i < C * R; ++i) { for (int j = 0; j < C; ++j) mv(basis<C, R, T>(i, 3), vecb<C, T>(j)); for (int j = 0; j < R; ++j) vm(vecb<R, T>(j), basis<C, R, T>(i, 3)); }
     for (int s = 0; s < (g_thorough ? 30 : 6); ++s) { mv(dense<C, R, T>(s), vecd<C, T>(s)); vm(vecd<R, T>(s), dense<C, R, T>(s + 1)); mv(fractional<C, R, T>(s), vecd<C, T>(s + 2)); vm(vecd<R, T>(s + 5), fractional<C, R, T>(s)); }
     for (int s = 0; s < (g_thorough ? 200 : 12); ++s) { mv(randomm<C, R, T>(), vecr<C, T>()); vm(vecr<R, T>(), randomm<C, R, T>()); }
     // aliasing: the result overwrites an operand
     for (int s = 0; s < 4; ++s) {
-        if constexpr (C == R) { M<C, R, T> m = dense<C, R, T>(s); V<C, T> v = vecd<C, T>(s); V<C, T> v0 = v; v = m * v; EVM("mv", T).num("c", C).num("r", R).str("alias", "v=m*v").arg(m).arg(v0).res(v).emit();
-            M<C, R, T> m2 = dense<C, R, T>(s + 3), m0 = m2; m2[C - 1] = m2 * m2[C - 1]; V<R, T> col = m2[C - 1]; V<C, T> c0 = m0[C - 1]; EVM("mv", T).num("c", C).num("r", R).str("alias", "m[i]=m*m[i]").arg(m0).arg(c0).res(col).emit();
-            if constexpr (std::is_floating_point<T>::value) { V<R, T> w = vecd<R, T>(s + 1), w0 = w; w = w * m; EVM("vm", T).num("c", C).num("r", R).str("alias", "v=v*m").arg(w0).arg(m).res(w).emit(); } }
+        if constexpr (C == R) { M<C, R, T> m = dense<C, R, T>(s); V<C, T> v = vecd<C, T>(s); V<C, T> v0 = v; v = m * v; EVM("mv", T).num("C", C).num("R", R).str("alias", "v=m*v").arg(m).arg(v0).res(v).emit();
+            M<C, R, T> m2 = dense<C, R, T>(s + 3), m0 = m2; m2[C - 1] = m2 * m2[C - 1]; V<R, T> col = m2[C - 1]; V<C, T> c0 = m0[C - 1]; EVM("mv", T).num("C", C).num("R", R).str("alias", "m[i]=m*m[i]").arg(m0).arg(c0).res(col).emit();
+            if constexpr (std::is_floating_point<T>::value) { V<R, T> w = vecd<R, T>(s + 1), w0 = w; w = w * m; EVM("vm", T).num("C", C).num("R", R).str("alias", "v=v*m").arg(w0).arg(m).res(w).emit(); } }
     }
 }
 
@@ -74,43 +74,43 @@ template<int C, int R, class T> void shape_ops() {
     size_t k = 0;
     for (MT const& a : ms) {
         MT const& b = ms[(k * 5 + 1) % ms.size()]; T s = ss[k % ss.size()]; ++k;
-        { auto r = glm::transpose(a); EVM("tr", T).num("c", C).num("r", R).arg(a).res(r).emit(); }
-        { MT r = glm::matrixCompMult(a, b); EVM("cmul", T).num("c", C).num("r", R).arg(a).arg(b).res(r).emit(); }
-        { MT r = a + b; EVM("add", T).num("c", C).num("r", R).arg(a).arg(b).res(r).emit(); }
-        { MT r = a - b; EVM("sub", T).num("c", C).num("r", R).arg(a).arg(b).res(r).emit(); }
-        { MT r = a + s; EVM("adds", T).num("c", C).num("r", R).arg(a).arg(s).res(r).emit(); }
-        { MT r = a - s; EVM("subs", T).num("c", C).num("r", R).arg(a).arg(s).res(r).emit(); }
-        { MT r = a * s; EVM("muls", T).num("c", C).num("r", R).arg(a).arg(s).res(r).emit(); }
-        { MT r = s * a; EVM("muls", T).num("c", C).num("r", R).arg(a).arg(s).res(r).emit(); }
-        { MT r = a / s; EVM("divs", T).num("c", C).num("r", R).arg(a).arg(s).res(r).emit(); }
-        { bool nz = true; for (int c = 0; c < C; ++c) for (int r = 0; r < R; ++r) if (a[c][r] == T(0)) nz = false; if (nz) { MT r = s / a; EVM("sdiv", T).num("c", C).num("r", R).arg(a).arg(s).res(r).emit(); } }
-        if (std::numeric_limits<T>::is_signed) { MT r = -a; EVM("neg", T).num("c", C).num("r", R).arg(a).res(r).emit(); }
-        { MT r = +a; EVM("pos", T).num("c", C).num("r", R).arg(a).res(r).emit(); }
-        { bool r = (a == b); EVM("eq", T).num("c", C).num("r", R).arg(a).arg(b).res(r).emit(); bool r2 = (a == a); MT a2 = a; EVM("eq", T).num("c", C).num("r", R).arg(a).arg(a2).res(r2).emit();
-          bool r3 = (a != b); EVM("ne", T).num("c", C).num("r", R).arg(a).arg(b).res(r3).emit(); MT d = a; d[C - 1][R - 1] = T(d[C - 1][R - 1] + T(1)); bool r4 = (a != d), r5 = (a == d); EVM("ne", T).num("c", C).num("r", R).arg(a).arg(d).res(r4).emit(); EVM("eq", T).num("c", C).num("r", R).arg(a).arg(d).res(r5).emit(); }
+        { auto r = glm::transpose(a); EVM("tr", T).num("C", C).num("R", R).arg(a).res(r).emit(); }
+        { MT r = glm::matrixCompMult(a, b); EVM("cmul", T).num("C", C).num("R", R).arg(a).arg(b).res(r).emit(); }
+        { MT r = a + b; EVM("add", T).num("C", C).num("R", R).arg(a).arg(b).res(r).emit(); }
+        { MT r = a - b; EVM("sub", T).num("C", C).num("R", R).arg(a).arg(b).res(r).emit(); }
+        { MT r = a + s; EVM("adds", T).num("C", C).num("R", R).arg(a).arg(s).res(r).emit(); }
+        { MT r = a - s; EVM("subs", T).num("C", C).num("R", R).arg(a).arg(s).res(r).emit(); }
+        { MT r = a * s; EVM("muls", T).num("C", C).num("R", R).arg(a).arg(s).res(r).emit(); }
+        { MT r = s * a; EVM("muls", T).num("C", C).num("R", R).arg(a).arg(s).res(r).emit(); }
+        { MT r = a / s; EVM("divs", T).num("C", C).num("R", R).arg(a).arg(s).res(r).emit(); }
+        { bool nz = true; for (int c = 0; c < C; ++c) for (int r = 0; r < R; ++r) if (a[c][r] == T(0)) nz = false; if (nz) { MT r = s / a; EVM("sdiv", T).num("C", C).num("R", R).arg(a).arg(s).res(r).emit(); } }
+        if (std::numeric_limits<T>::is_signed) { MT r = -a; EVM("neg", T).num("C", C).num("R", R).arg(a).res(r).emit(); }
+        { MT r = +a; EVM("pos", T).num("C", C).num("R", R).arg(a).res(r).emit(); }
+        { bool r = (a == b); EVM("eq", T).num("C", C).num("R", R).arg(a).arg(b).res(r).emit(); bool r2 = (a == a); MT a2 = a; EVM("eq", T).num("C", C).num("R", R).arg(a).arg(a2).res(r2).emit();
+          bool r3 = (a != b); EVM("ne", T).num("C", C).num("R", R).arg(a).arg(b).res(r3).emit(); MT d = a; d[C - 1][R - 1] = T(d[C - 1][R - 1] + T(1)); bool r4 = (a != d), r5 = (a == d); EVM("ne", T).num("C", C).num("R", R).arg(a).arg(d).res(r4).emit(); EVM("eq", T).num("C", C).num("R", R).arg(a).arg(d).res(r5).emit(); }
         // compound assignment: the logged result is the state of the left operand after the operation
-        { MT r = a; r += b; EVM("add", T).num("c", C).num("r", R).str("form", "+=").arg(a).arg(b).res(r).emit(); }
-        { MT r = a; r -= b; EVM("sub", T).num("c", C).num("r", R).str("form", "-=").arg(a).arg(b).res(r).emit(); }
-        { MT r = a; r += s; EVM("adds", T).num("c", C).num("r", R).str("form", "+=").arg(a).arg(s).res(r).emit(); }
-        { MT r = a; r -= s; EVM("subs", T).num("c", C).num("r", R).str("form", "-=").arg(a).arg(s).res(r).emit(); }
-        { MT r = a; r *= s; EVM("muls", T).num("c", C).num("r", R).str("form", "*=").arg(a).arg(s).res(r).emit(); }
-        { MT r = a; r /= s; EVM("divs", T).num("c", C).num("r", R).str("form", "/=").arg(a).arg(s).res(r).emit(); }
-        { MT r = a; r += r; EVM("add", T).num("c", C).num("r", R).str("form", "m+=m").arg(a).arg(a).res(r).emit(); }
-        { MT r = a; MT q = ++r; EVM("adds", T).num("c", C).num("r", R).str("form", "++m").arg(a).arg(T(1)).res(r).emit(); EVM("adds", T).num("c", C).num("r", R).str("form", "++m value").arg(a).arg(T(1)).res(q).emit(); }
-        { MT r = a; MT q = r--; EVM("subs", T).num("c", C).num("r", R).str("form", "m--").arg(a).arg(T(1)).res(r).emit(); EVM("pos", T).num("c", C).num("r", R).str("form", "m-- value").arg(a).res(q).emit(); }
-        { MT r = a; MT q = r++; EVM("adds", T).num("c", C).num("r", R).str("form", "m++").arg(a).arg(T(1)).res(r).emit(); EVM("pos", T).num("c", C).num("r", R).str("form", "m++ value").arg(a).res(q).emit(); }
-        { MT r = a; MT q = --r; EVM("subs", T).num("c", C).num("r", R).str("form", "--m").arg(a).arg(T(1)).res(q).emit(); }
+        { MT r = a; r += b; EVM("add", T).num("C", C).num("R", R).str("form", "+=").arg(a).arg(b).res(r).emit(); }
+        { MT r = a; r -= b; EVM("sub", T).num("C", C).num("R", R).str("form", "-=").arg(a).arg(b).res(r).emit(); }
+        { MT r = a; r += s; EVM("adds", T).num("C", C).num("R", R).str("form", "+=").arg(a).arg(s).res(r).emit(); }
+        { MT r = a; r -= s; EVM("subs", T).num("C", C).num("R", R).str("form", "-=").arg(a).arg(s).res(r).emit(); }
+        { MT r = a; r *= s; EVM("muls", T).num("C", C).num("R", R).str("form", "*=").arg(a).arg(s).res(r).emit(); }
+        { MT r = a; r /= s; EVM("divs", T).num("C", C).num("R", R).str("form", "/=").arg(a).arg(s).res(r).emit(); }
+        { MT r = a; r += r; EVM("add", T).num("C", C).num("R", R).str("form", "m+=m").arg(a).arg(a).res(r).emit(); }
+        { MT r = a; MT q = ++r; EVM("adds", T).num("C", C).num("R", R).str("form", "++m").arg(a).arg(T(1)).res(r).emit(); EVM("adds", T).num("C", C).num("R", R).str("form", "++m value").arg(a).arg(T(1)).res(q).emit(); }
+        { MT r = a; MT q = r--; EVM("subs", T).num("C", C).num("R", R).str("form", "m--").arg(a).arg(T(1)).res(r).emit(); EVM("pos", T).num("C", C).num("R", R).str("form", "m-- value").arg(a).res(q).emit(); }
+        { MT r = a; MT q = r++; EVM("adds", T).num("C", C).num("R", R).str("form", "m++").arg(a).arg(T(1)).res(r).emit(); EVM("pos", T).num("C", C).num("R", R).str("form", "m++ value").arg(a).res(q).emit(); }
+        { MT r = a; MT q = --r; EVM("subs", T).num("C", C).num("R", R).str("form", "--m").arg(a).arg(T(1)).res(q).emit(); }
         // accessors
-        for (int i = 0; i < R; ++i) { auto r = glm::row(a, i); EVM("rowget", T).num("c", C).num("r", R).num("i", i).arg(a).res(r).emit(); V<C, T> x = vecd<C, T>(i + int(k)); MT r2 = glm::row(a, i, x); EVM("rowset", T).num("c", C).num("r", R).num("i", i).arg(a).arg(x).res(r2).emit(); }
-        for (int i = 0; i < C; ++i) { auto r = glm::column(a, i); EVM("colget", T).num("c", C).num("r", R).num("i", i).arg(a).res(r).emit(); V<R, T> x = vecd<R, T>(i + int(k)); MT r2 = glm::column(a, i, x); EVM("colset", T).num("c", C).num("r", R).num("i", i).arg(a).arg(x).res(r2).emit();
-            V<R, T> col = a[i]; EVM("colget", T).num("c", C).num("r", R).num("i", i).str("form", "m[i]").arg(a).res(col).emit(); }
+        for (int i = 0; i < R; ++i) { auto r = glm::row(a, i); EVM("rowget", T).num("C", C).num("R", R).num("i", i).arg(a).res(r).emit(); V<C, T> x = vecd<C, T>(i + int(k)); MT r2 = glm::row(a, i, x); EVM("rowset", T).num("C", C).num("R", R).num("i", i).arg(a).arg(x).res(r2).emit(); }
+        for (int i = 0; i < C; ++i) { auto r = glm::column(a, i); EVM("colget", T).num("C", C).num("R", R).num("i", i).arg(a).res(r).emit(); V<R, T> x = vecd<R, T>(i + int(k)); MT r2 = glm::column(a, i, x); EVM("colset", T).num("C", C).num("R", R).num("i", i).arg(a).arg(x).res(r2).emit();
+            V<R, T> col = a[i]; EVM("colget", T).num("C", C).num("R", R).num("i", i).str("form", "m[i]").arg(a).res(col).emit(); }
         // outer product giving this shape: outerProduct(c (R entries), r (C entries)) -> mat<C, R>
-        { V<R, T> cv = vecd<R, T>(int(k)); V<C, T> rv = vecd<C, T>(int(k) + 2); MT r = glm::outerProduct(cv, rv); EVM("outer", T).num("c", C).num("r", R).arg(cv).arg(rv).res(r).emit(); }
+        { V<R, T> cv = vecd<R, T>(int(k)); V<C, T> rv = vecd<C, T>(int(k) + 2); MT r = glm::outerProduct(cv, rv); EVM("outer", T).num("C", C).num("R", R).arg(cv).arg(rv).res(r).emit(); }
     }
     // scalar and diagonal construction are C17's; shape conversions are exercised here because the property lists them
 }
 template<int C, int R, int C2, int R2, class T> void conv_one() {
-    for (int s = 0; s < 2; ++s) { M<C2, R2, T> src = dense<C2, R2, T>(s + C + R); M<C, R, T> r(src); EVM("conv", T).num("c", C).num("r", R).num("c2", C2).num("r2", R2).arg(src).res(r).emit(); }
+    for (int s = 0; s < 2; ++s) { M<C2, R2, T> src = dense<C2, R2, T>(s + C + R); M<C, R, T> r(src); EVM("conv", T).num("C", C).num("R", R).num("c2", C2).num("r2", R2).arg(src).res(r).emit(); }
 }
 template<int C, int R, class T> void conv_all() {
     conv_one<C, R, 2, 2, T>(); conv_one<C, R, 2, 3, T>(); conv_one<C, R, 2, 4, T>(); conv_one<C, R, 3, 2, T>(); conv_one<C, R, 3, 3, T>(); conv_one<C, R, 3, 4, T>(); conv_one<C, R, 4, 2, T>(); conv_one<C, R, 4, 3, T>(); conv_one<C, R, 4, 4, T>();
@@ -122,8 +122,8 @@ template<int N, class T> void square_ops() {
         { MT r = a; r *= b; EVM("mm", T).num("c1", N).num("r1", N).num("c2", N).str("form", "*=").arg(a).arg(b).res(r).emit(); }
         { MT r = a; r *= r; EVM("mm", T).num("c1", N).num("r1", N).num("c2", N).str("form", "m*=m").arg(a).arg(a).res(r).emit(); }
         { MT r = a; r = r * r; EVM("mm", T).num("c1", N).num("r1", N).num("c2", N).str("form", "m=m*m").arg(a).arg(a).res(r).emit(); }
-        { MT r = sc + a; EVM("adds", T).num("c", N).num("r", N).str("form", "s+m").arg(a).arg(sc).res(r).emit(); }
-        { MT r = sc - a; EVM("ssub", T).num("c", N).num("r", N).arg(a).arg(sc).res(r).emit(); }
+        { MT r = sc + a; EVM("adds", T).num("C", N).num("R", N).str("form", "s+m").arg(a).arg(sc).res(r).emit(); }
+        { MT r = sc - a; EVM("ssub", T).num("C", N).num("R", N).arg(a).arg(sc).res(r).emit(); }
     }
 }
 template<class T> void gtx_ops() {
@@ -132,9 +132,9 @@ template<class T> void gtx_ops() {
         { auto r = glm::rowMajor2(a2, b2); EVM("rowMajorV", T).num("n", 2).arg(a2).arg(b2).res(r).emit(); auto c = glm::colMajor2(a2, b2); EVM("colMajorV", T).num("n", 2).arg(a2).arg(b2).res(c).emit(); }
         { auto r = glm::rowMajor3(a3, b3, c3); EVM("rowMajorV", T).num("n", 3).arg(a3).arg(b3).arg(c3).res(r).emit(); auto c = glm::colMajor3(a3, b3, c3); EVM("colMajorV", T).num("n", 3).arg(a3).arg(b3).arg(c3).res(c).emit(); }
         { auto r = glm::rowMajor4(a4, b4, c4, d4); EVM("rowMajorV", T).num("n", 4).arg(a4).arg(b4).arg(c4).arg(d4).res(r).emit(); auto c = glm::colMajor4(a4, b4, c4, d4); EVM("colMajorV", T).num("n", 4).arg(a4).arg(b4).arg(c4).arg(d4).res(c).emit(); }
-        { M<2, 2, T> m = dense<2, 2, T>(s); auto r = glm::rowMajor2(m); EVM("tr", T).num("c", 2).num("r", 2).str("form", "rowMajor").arg(m).res(r).emit(); auto c = glm::colMajor2(m); EVM("pos", T).num("c", 2).num("r", 2).str("form", "colMajor").arg(m).res(c).emit(); }
-        { M<3, 3, T> m = dense<3, 3, T>(s); auto r = glm::rowMajor3(m); EVM("tr", T).num("c", 3).num("r", 3).str("form", "rowMajor").arg(m).res(r).emit(); auto c = glm::colMajor3(m); EVM("pos", T).num("c", 3).num("r", 3).str("form", "colMajor").arg(m).res(c).emit(); }
-        { M<4, 4, T> m = dense<4, 4, T>(s); auto r = glm::rowMajor4(m); EVM("tr", T).num("c", 4).num("r", 4).str("form", "rowMajor").arg(m).res(r).emit(); auto c = glm::colMajor4(m); EVM("pos", T).num("c", 4).num("r", 4).str("form", "colMajor").arg(m).res(c).emit(); }
+        { M<2, 2, T> m = dense<2, 2, T>(s); auto r = glm::rowMajor2(m); EVM("tr", T).num("C", 2).num("R", 2).str("form", "rowMajor").arg(m).res(r).emit(); auto c = glm::colMajor2(m); EVM("pos", T).num("C", 2).num("R", 2).str("form", "colMajor").arg(m).res(c).emit(); }
+        { M<3, 3, T> m = dense<3, 3, T>(s); auto r = glm::rowMajor3(m); EVM("tr", T).num("C", 3).num("R", 3).str("form", "rowMajor").arg(m).res(r).emit(); auto c = glm::colMajor3(m); EVM("pos", T).num("C", 3).num("R", 3).str("form", "colMajor").arg(m).res(c).emit(); }
+        { M<4, 4, T> m = dense<4, 4, T>(s); auto r = glm::rowMajor4(m); EVM("tr", T).num("C", 4).num("R", 4).str("form", "rowMajor").arg(m).res(r).emit(); auto c = glm::colMajor4(m); EVM("pos", T).num("C", 4).num("R", 4).str("form", "colMajor").arg(m).res(c).emit(); }
         if (std::numeric_limits<T>::is_signed) { auto r = glm::matrixCross3(a3); EVM("matrixCross", T).num("n", 3).arg(a3).res(r).emit(); auto q = glm::matrixCross4(a3); EVM("matrixCross", T).num("n", 4).arg(a3).res(q).emit(); }
     }
 }
